@@ -41,6 +41,7 @@ CONSTANTS Sessions,      \* session names (strings)
           Script         \* <<>> or a sequence of [act, s, args]: the free phase follows exactly this schedule
 
 None == "none"
+RecoveryBox == "Recovered Messages"
 Unknown == {"?"}
 SharedFlags == {"Seen", "Flagged"}
 AllFlags == SharedFlags \cup {"Deleted"}
@@ -57,6 +58,7 @@ VARIABLES
   flg,      \* [Msgs -> SUBSET SharedFlags]          message_flags_v2 (shared by all mailboxes)
   used,     \* SUBSET Msgs                           message entities that exist
   dead,     \* SUBSET Msgs                           deleted by the remote: never referred to again
+  recd,     \* SUBSET Msgs                           literals kept in the recovery mailbox after a refused APPEND
   sel,      \* [Sessions -> Boxes \cup {None}]
   ro,       \* [Sessions -> BOOLEAN]                 EXAMINE
   snap,     \* [Sessions -> Seq([m, uid, f])]        f includes "Deleted"
@@ -71,9 +73,9 @@ VARIABLES
   steps,    \* number of steps taken (simulation only)
   hist      \* simulation: the behaviour so far (not part of the view)
 
-vars == <<rows, uidNext, flg, used, dead, sel, ro, snap, res, q, idle, mirror, taint, ever, wire, last, steps, hist>>
-view == <<rows, uidNext, flg, used, dead, sel, ro, snap, res, q, idle, mirror, taint>>
-viewNoMirror == <<rows, uidNext, flg, used, dead, sel, ro, snap, res, q, idle, taint>>
+vars == <<rows, uidNext, flg, used, dead, recd, sel, ro, snap, res, q, idle, mirror, taint, ever, wire, last, steps, hist>>
+view == <<rows, uidNext, flg, used, dead, recd, sel, ro, snap, res, q, idle, mirror, taint>>
+viewNoMirror == <<rows, uidNext, flg, used, dead, recd, sel, ro, snap, res, q, idle, taint>>
 
 -----------------------------------------------------------------------------
 (* Sequences of records carrying a message id in field m *)
@@ -287,6 +289,7 @@ Init ==
   /\ flg = [m \in Msgs |-> {}]
   /\ used = {}
   /\ dead = {}
+  /\ recd = {}
   /\ sel = [s \in Sessions |-> None]
   /\ ro = [s \in Sessions |-> FALSE]
   /\ snap = [s \in Sessions |-> <<>>]
@@ -331,7 +334,7 @@ CmdSelect(s, b, readonly) ==
   \* on top of a state that already contains them (same family as F14)
   /\ taint' = [taint EXCEPT ![s] = IF \E i \in 1..Len(q[s]) : Relevant(q[s][i], b) THEN {"F14"} ELSE {}]
   /\ Log(IF readonly THEN "Examine" ELSE "Select", s, <<b>>, "OK")
-  /\ UNCHANGED <<rows, uidNext, flg, used, dead, q, idle, ever>>
+  /\ UNCHANGED <<rows, uidNext, flg, used, dead, recd, q, idle, ever>>
 
 \* the messages EXPUNGE / CLOSE remove: marked \Deleted in the *session's view* and still rows of the mailbox
 ToExpunge(s, P) ==
@@ -357,7 +360,7 @@ CmdClose(s, unselect) ==
   /\ wire' = Quiet
   /\ taint' = [taint EXCEPT ![s] = {}]
   /\ Log(IF unselect THEN "Unselect" ELSE "Close", s, <<>>, "OK")
-  /\ UNCHANGED <<uidNext, flg, used, dead, idle, ever>>
+  /\ UNCHANGED <<uidNext, flg, used, dead, recd, idle, ever>>
 
 -----------------------------------------------------------------------------
 (* APPEND of a fresh literal m into mailbox b                                 *)
@@ -370,13 +373,18 @@ CmdAppend(s, b, m) ==
           IN /\ rows' = [rows EXCEPT ![b] = ar.rows]
              /\ uidNext' = [uidNext EXCEPT ![b] = ar.next]
              /\ used' = used \cup {m}
-             /\ dead' = dead
+             /\ dead' = dead /\ recd' = recd
              /\ ever' = EverAdd(b, ar.items)
              /\ q' = EnqueueOthers(s, <<u>>)
              /\ IF same THEN FinishSel(s, <<u>>, "exp", <<>>, {}, FALSE)
                 ELSE IF sel[s] # None THEN FinishSel(s, <<u>>, "none", <<>>, {}, FALSE) ELSE FinishPlain(s)
              /\ Log("Append", s, <<b, m, uidNext[b]>>, "OK")
-     ELSE /\ UNCHANGED <<rows, uidNext, used, dead, ever, q>>
+     ELSE \* refused (limit): the literal is kept in the recovery mailbox, once per distinct literal, and the
+          \* arrival there is published like any other (nobody in this model has that mailbox selected)
+          /\ UNCHANGED <<rows, uidNext, used, dead, ever>>
+          /\ recd' = recd \cup {m}
+          /\ q' = IF m \in recd THEN q
+                  ELSE EnqueueOthers(s, <<ExistsU(RecoveryBox, <<[m |-> m, uid |-> Cardinality(recd) + 1, f |-> {}]>>, None)>>)
           /\ FinishPlain(s)
           /\ Log("Append", s, <<b, m, 0>>, "NO")
   /\ UNCHANGED <<flg, sel, ro, idle>>
@@ -412,7 +420,7 @@ CmdStore(s, P, op, F, silent, asuid) ==
         /\ q' = EnqueueOthers(s, <<u>>)
         /\ FinishSel(s, <<u>>, "noexp", <<>>, IF silent THEN P ELSE {}, FALSE)
   /\ Log("Store", s, <<AscSeq(P), op, AscFlags(F), silent, asuid>>, "OK")
-  /\ UNCHANGED <<uidNext, used, dead, sel, ro, idle, ever>>
+  /\ UNCHANGED <<uidNext, used, dead, recd, sel, ro, idle, ever>>
 
 -----------------------------------------------------------------------------
 (* EXPUNGE, UID EXPUNGE (P = positions addressed by the UID set)              *)
@@ -427,7 +435,7 @@ CmdExpunge(s, P, byuid) ==
         /\ q' = EnqueueOthers(s, us)
         /\ FinishSel(s, us, "exp", <<>>, {}, FALSE)
   /\ Log(IF byuid THEN "UidExpunge" ELSE "Expunge", s, <<AscSeq(P)>>, "OK")
-  /\ UNCHANGED <<uidNext, flg, used, dead, sel, ro, idle, ever>>
+  /\ UNCHANGED <<uidNext, flg, used, dead, recd, sel, ro, idle, ever>>
 
 -----------------------------------------------------------------------------
 (* NOOP / CHECK: flush with permitExpunge                                     *)
@@ -435,7 +443,7 @@ CmdNoop(s) ==
   /\ Ready(s)
   /\ IF sel[s] # None THEN FinishSel(s, <<>>, "exp", <<>>, {}, FALSE) ELSE FinishPlain(s)
   /\ Log("Noop", s, <<>>, "OK")
-  /\ UNCHANGED <<rows, uidNext, flg, used, dead, sel, ro, q, idle, ever>>
+  /\ UNCHANGED <<rows, uidNext, flg, used, dead, recd, sel, ro, q, idle, ever>>
 
 (* FETCH 1:* (UID FLAGS): answers from the snapshot, then flush without expunge *)
 CmdFetch(s) ==
@@ -443,7 +451,7 @@ CmdFetch(s) ==
   /\ LET pre == [i \in 1..Len(snap[s]) |-> [t |-> "FETCH", n |-> i, uid |-> snap[s][i].uid, f |-> snap[s][i].f]]
      IN FinishSel(s, <<>>, "noexp", pre, {}, FALSE)
   /\ Log("Fetch", s, <<>>, IF Expunging(s) THEN "OK-EXPUNGEISSUED" ELSE "OK")
-  /\ UNCHANGED <<rows, uidNext, flg, used, dead, sel, ro, q, idle, ever>>
+  /\ UNCHANGED <<rows, uidNext, flg, used, dead, recd, sel, ro, q, idle, ever>>
 
 (* FETCH P (BODY[]) in a read-write selection: \Seen is written straight into the    *)
 (* snapshot and reported in the same FETCH line, then the +FLAGS (\Seen) action runs  *)
@@ -476,7 +484,7 @@ CmdFetchBody(s, P) ==
                                                      \cup (IF fr.ooo THEN {"F13"} ELSE {})
                                                      \cup (IF JumpsQueue(s, <<u>>) THEN {"F14"} ELSE {})]
   /\ Log("FetchBody", s, <<AscSeq(P)>>, "OK")
-  /\ UNCHANGED <<rows, uidNext, used, dead, sel, ro, idle, ever>>
+  /\ UNCHANGED <<rows, uidNext, used, dead, recd, sel, ro, idle, ever>>
 
 -----------------------------------------------------------------------------
 (* COPY / MOVE of positions P (ascending) to mailbox d                        *)
@@ -505,7 +513,7 @@ CmdCopy(s, P, d) ==
         ELSE /\ UNCHANGED <<rows, uidNext, ever, q>>
              /\ FinishSel(s, <<>>, "noexp", <<>>, {}, FALSE)
              /\ Log("Copy", s, <<ps, d, <<>>>>, "NO")
-  /\ UNCHANGED <<flg, used, dead, sel, ro, idle>>
+  /\ UNCHANGED <<flg, used, dead, recd, sel, ro, idle>>
 
 CmdMove(s, P, d) ==
   /\ Ready(s) /\ sel[s] # None /\ ~ro[s] /\ P # {} /\ P \subseteq 1..Len(snap[s])
@@ -543,7 +551,7 @@ CmdMove(s, P, d) ==
                 ELSE /\ UNCHANGED <<rows, uidNext, ever, q>>
                      /\ FinishSel(s, <<>>, "noexp", <<>>, {}, FALSE)
                      /\ Log("Move", s, <<ps, d, <<>>>>, "NO")
-  /\ UNCHANGED <<flg, used, dead, sel, ro, idle>>
+  /\ UNCHANGED <<flg, used, dead, recd, sel, ro, idle>>
 
 -----------------------------------------------------------------------------
 (* IDLE: begin = flush with expunge; while idle, responders are handled at once *)
@@ -552,14 +560,14 @@ IdleBegin(s) ==
   /\ idle' = [idle EXCEPT ![s] = TRUE]
   /\ FinishSel(s, <<>>, "exp", <<>>, {}, FALSE)
   /\ Log("IdleBegin", s, <<>>, "OK")
-  /\ UNCHANGED <<rows, uidNext, flg, used, dead, sel, ro, q, ever>>
+  /\ UNCHANGED <<rows, uidNext, flg, used, dead, recd, sel, ro, q, ever>>
 
 IdleDone(s) ==
   /\ idle[s]
   /\ idle' = [idle EXCEPT ![s] = FALSE]
   /\ wire' = Quiet
   /\ Log("IdleDone", s, <<>>, "OK")
-  /\ UNCHANGED <<rows, uidNext, flg, used, dead, sel, ro, snap, res, q, mirror, taint, ever>>
+  /\ UNCHANGED <<rows, uidNext, flg, used, dead, recd, sel, ro, snap, res, q, mirror, taint, ever>>
 
 -----------------------------------------------------------------------------
 (* The session loop takes one update from its queue: State.ApplyUpdate        *)
@@ -581,7 +589,7 @@ Deliver(s) ==
                 /\ wire' = Quiet
                 /\ UNCHANGED <<snap, mirror>>
         /\ Log("Deliver", s, <<u.k, pass>>, "OK")
-  /\ UNCHANGED <<rows, uidNext, flg, used, dead, sel, ro, idle, ever>>
+  /\ UNCHANGED <<rows, uidNext, flg, used, dead, recd, sel, ro, idle, ever>>
 
 -----------------------------------------------------------------------------
 (* Connector updates: backend/connector_updates.go                            *)
@@ -604,7 +612,7 @@ ConnSetBoxes(m, B) ==
         /\ uidNext' = [b \in Boxes |-> IF b \in addTo THEN uidNext[b] + 1 ELSE uidNext[b]]
         /\ ever' = [b \in Boxes |-> IF b \in addTo THEN ever[b] \cup {<<uidNext[b], m>>} ELSE ever[b]]
         /\ used' = used \cup {m}
-        /\ dead' = dead
+        /\ dead' = dead /\ recd' = recd
         /\ q' = EnqueueAll(addU \o remU)
   /\ wire' = Quiet
   /\ Log("ConnSetBoxes", None, <<m, AscBoxes(B)>>, "OK")
@@ -617,7 +625,7 @@ ConnSetBoxesRefused(m, B) ==
   /\ \E b \in B : ~HasMsg(rows[b], m) /\ ~FitsLimits(b, rows[b], uidNext[b], 1)
   /\ wire' = Quiet
   /\ Log("ConnSetBoxes", None, <<m, AscBoxes(B)>>, "ERR")
-  /\ UNCHANGED <<rows, uidNext, flg, used, dead, sel, ro, snap, res, q, idle, mirror, taint, ever>>
+  /\ UNCHANGED <<rows, uidNext, flg, used, dead, recd, sel, ro, snap, res, q, idle, mirror, taint, ever>>
 
 \* MessageFlagsUpdated: the shared flags of m become exactly F; one update per flag that changes
 ConnSetFlags(m, F) ==
@@ -630,7 +638,7 @@ ConnSetFlags(m, F) ==
         /\ q' = EnqueueAll(us)
   /\ wire' = Quiet
   /\ Log("ConnSetFlags", None, <<m, AscFlags(F)>>, "OK")
-  /\ UNCHANGED <<rows, uidNext, used, dead, sel, ro, snap, res, idle, mirror, taint, ever>>
+  /\ UNCHANGED <<rows, uidNext, used, dead, recd, sel, ro, snap, res, idle, mirror, taint, ever>>
 
 \* MessageDeleted: removed from every mailbox (the entity is only marked deleted)
 ConnDelete(m) ==
@@ -639,7 +647,7 @@ ConnDelete(m) ==
      IN /\ rows' = [b \in Boxes |-> RemoveMsgs(rows[b], {m})]
         /\ q' = EnqueueAll([i \in 1..Len(rb) |-> ExpungeU(rb[i], m)])
   /\ used' = used \ {m}
-  /\ dead' = dead \cup {m}
+  /\ dead' = dead \cup {m} /\ recd' = recd
   /\ wire' = Quiet
   /\ Log("ConnDelete", None, <<m>>, "OK")
   /\ UNCHANGED <<uidNext, flg, sel, ro, snap, res, idle, mirror, taint, ever>>
@@ -827,7 +835,8 @@ RemovalBeforeReAdd ==
               ~(\E p \in 1..Len(snap[s]) : snap[s][p].m = res[s][j].m /\ snap[s][p].uid = res[s][j].uid)
 
 \* C03 -- a refused command changes nothing
-FailedIsNoop == [][last'.status \in {"NO", "ERR"} => (rows' = rows /\ flg' = flg /\ uidNext' = uidNext /\ q' = q)]_vars
+FailedIsNoop == [][last'.status \in {"NO", "ERR"} =>
+                     (rows' = rows /\ flg' = flg /\ uidNext' = uidNext /\ (last'.act # "Append" => q' = q))]_vars
 
 \* C17
 WithinLimits == \A b \in Boxes : Len(rows[b]) <= MaxMsgs /\ uidNext[b] - 1 <= LimitUid
